@@ -43,7 +43,8 @@ cvars == <<PW, CW, SW, deps, order, hasConf, fail>>
 Pos(x)   == CHOOSE k \in DOMAIN ExtSeq : ExtSeq[k] = x
 Perms(S) == {s \in [1..Cardinality(S) -> S] : \A a, b \in DOMAIN s : a # b => s[a] # s[b]}
 IsTopo(s, d) == \A a, b \in DOMAIN s : s[b] \in d[s[a]] => b < a
-Small(S) == {T \in SUBSET S : Cardinality(T) <= MaxFail}
+\* subsets with at most MaxFail (<= 2) elements, without enumerating SUBSET S
+Small(S) == {T \in ({{}} \cup {{a} : a \in S} \cup {{ab[1], ab[2]} : ab \in S \X S}) : Cardinality(T) <= MaxFail}
 
 Init ==
   /\ PW \in SUBSET Exts /\ CW \in SUBSET Exts /\ SW \in SUBSET Exts
